@@ -36,7 +36,7 @@ def sim(name, which, prof=None, n_quick=600, n_thorough=30000, nontrivial=None, 
 def sim_replay(v, path):
     from .common import run_pair
     lines = [l.strip() for l in open(path) if l.strip() and not l.startswith("#")]
-    i, m = run_pair("sim", [sim_suite.block("x", lines)], jobs=1)
+    i, m = run_pair("sim", [sim_suite.block("x", lines)], jobs=1, stall=20)
     d = sim_suite.compare(i.get("x", []), [l for l in m.get("x", []) if not l.startswith(("vres=", "V ", "R "))])
     print("\n".join(l[:300] for l in i.get("x", [])[:60]))
     mon = sim_monitors.monitor(lines, i.get("x", []), v.pid)
@@ -117,7 +117,7 @@ PROPS = {
     "C01": {"ready": True, "replay": c01_suite.replay, "suites": [lambda v, tier, seed: c01_suite.run(v, tier, seed)],
             "partial": "cross-process determinism of DefaultHasher/Pcg64 and the order of equal-depth start states are observed, not proved; "
                        "the theorems cover the hash-order independence of dump_events/snapshot and of crash_node"},
-    "C04": {"ready": True, "partial": PARTIAL_D1 + "; the inclusion of whole simulated executions (R4) is checked on the implementation, not proved",
+    "C04": {"ready": True, "partial": PARTIAL_D1 + "; the step-by-step inclusion of a simulated execution in the reduced reference semantics (R4, sim_step_refines_partial) is proved for fault rates zero and without crash/recover during the run; with positive rates or crashes it is checked on the implementation (simulated walks) only",
             "replay": sim_replay, "suites": [snapshot_check(walk=10, routes=False)]},
     "C05": {"ready": True, "replay": sim_replay,
             "suites": [sim("sim_network", "C05", dict(p_fault=0.6, p_link=0.6, p_crash=0.1, nodes=(2, 3), procs=(2, 4)),
@@ -128,12 +128,14 @@ PROPS = {
                            nontrivial=lambda st: st["received"] and st["timers_fired"])]},
     "C08": {"ready": True, "replay": sim_replay,
             "suites": [sim("sim_crash", "C08", dict(p_crash=0.9, nodes=(2, 3), procs=(2, 4), ops=(10, 24)),
-                           nontrivial=lambda st: st["crash"] and st["received"])]},
+                           nontrivial=lambda st: st["crash"] and st["received"],
+                           extra=lambda rng, tier: [(f"cb{i}", sim_suite.gen_crash_burst(rng)) for i in range(150 if tier == "quick" else 3000)])]},
     "C15": {"ready": True, "replay": sim_replay, "suites": [snapshot_check(walk=0, routes=True)]},
     "C17": {"ready": True, "replay": sim_replay,
-            "partial": "whole-run consistency of logs/counters is judged by the monitor and the bit-exact correspondence; theorems cover the per-send bookkeeping",
+            "partial": "whole-run invariants are proved for the per-process logs/counters (LogInv) and the global trace (TraceInv: ids, network counters, traffic, single fate exactly for duplication-free sends, at most 3 otherwise); the times recorded in entries and the per-copy fate under duplication are judged by the monitor and the bit-exact correspondence",
             "suites": [sim("sim_logs", "C17", dict(p_fault=0.5, p_crash=0.4, p_link=0.3, nodes=(2, 3), procs=(2, 4)),
-                           nontrivial=lambda st: st["received"] and (st["dropped"] or st["crash"]))]},
+                           nontrivial=lambda st: st["received"] and (st["dropped"] or st["crash"]),
+                           extra=lambda rng, tier: [(f"cb{i}", sim_suite.gen_crash_burst(rng)) for i in range(150 if tier == "quick" else 3000)])]},
     "C18": {"ready": True, "replay": mc_checks.replay, "suites": [lambda v, tier, seed: py_suite.run(v, tier, seed)],
             "partial": "pickle, deepcopy, PyO3 conversions and JSON text are runtime behaviour covered by the correspondence runs only"},
     "C19": {"ready": True, "replay": mc_checks.replay, "suites": [pred_check],
@@ -170,7 +172,7 @@ PROPS = {
             "suites": [mc("mc_crash", dict(p_crash=1.0, nodes=(2, 3), procs=(2, 4), p_link=0.4, staged=0.5), refenum=True,
                           nontrivial=lambda st: st["crash"] and st["multi_states"])]},
     "C16": {"ready": True, "replay": mc_checks.replay,
-            "partial": "the union over start states is a theorem for the Disabled cache only (runFromStates_disabled_concat); with a shared cache it is carried by the correspondence runs",
+            "partial": "the union over start states is a theorem for the Disabled cache (runFromStates_disabled_concat) and for an exact shared cache with state-based predicates (runFromStates_ok_union); with path-dependent predicates and a shared cache the outcome depends on the hash order of equal-depth start states and is only observed",
             "suites": [mc("mc_staged", dict(staged=1.0, depth=(2, 4)), nontrivial=lambda st: st["staged"] and st["multi_states"])]},
     "C20": {
         "ready": True,
